@@ -133,6 +133,13 @@ func (s seed) String() string {
 
 var seeds []seed
 
+type unintendedSeed struct {
+	s     seed
+	state string
+}
+
+var unintended []unintendedSeed
+
 func mkSeeds() {
 	for _, k := range []int{14, 15, 16} {
 		for _, r := range []int{0, 1, 2} {
@@ -145,7 +152,10 @@ func mkSeeds() {
 				}
 			}
 			if a == nil || len(a.Entries) != k || len(a.Replacements) != r {
-				ev.Fatal("seed %v did not produce the intended state: %+v", s, bs)
+				// the table's own add / delete gave another state: judged against the statement in main (a state that
+				// breaks an invariant is a violation, any other only means this seed cannot be used)
+				unintended = append(unintended, unintendedSeed{s, fmt.Sprintf("%+v", bs)})
+				continue
 			}
 			self := dht.NewNode(selfID, net.IP{127, 0, 0, 1}, 46656, 46656)
 			s.Targets = [8]*dht.Node{a.Entries[len(a.Entries)-1], a.Entries[0], nodesA[16], nodesA[17], nodesA[18], nodesB[0], nodesB[1], self}
@@ -502,6 +512,15 @@ func main() {
 	seen := map[string]bool{}
 	var frontier []int
 	comparisons := 0
+	for _, u := range unintended {
+		bad := observe(u.s.build()).invariants()
+		for _, b := range bad {
+			run.Violation(b.inv+".in-seed", fmt.Sprintf("%v: %s", u.s, b.detail), u.s.String())
+		}
+		if len(bad) == 0 {
+			run.Capped(fmt.Sprintf("%v: could not be set up: adds and deletes did not produce the intended bucket (no invariant broken): %s", u.s, u.state))
+		}
+	}
 	for i, s := range seeds {
 		sn := observe(s.build())
 		comparisons++
